@@ -45,6 +45,7 @@ type Monitor struct {
 	maxFind          int
 	trace            []string
 	movedOnNode      map[string]bool
+	dupKinds         map[string]bool // kind:status:action of handler calls that fired twice in a row for one pod
 	sharedEvicted    map[string]bool // nodes on which a GPU-sharing pod was (virtually) evicted in this session
 	evictedNominated map[string]bool // nodes on which a pod that was only nominated in this session was evicted
 	lastStatus       map[common_info.PodID]pod_status.PodStatus
@@ -172,6 +173,7 @@ func (m *Monitor) onEvent(kind string, e *framework.Event) {
 			// the same handler fired twice in a row for one pod with the same status (e.g. pipelined twice):
 			// queue usage is added or subtracted twice
 			m.dupHandler = true
+			m.dupKinds[strings.TrimSuffix(kind, "-event")+":"+t.Status.String()+":"+m.action] = true
 			m.Stats["duplicate_handler_calls"]++
 		}
 		m.lastKind[t.UID] = kind
@@ -253,6 +255,7 @@ func (m *Monitor) recordInitial() {
 	m.everReleasing = map[common_info.PodID]bool{}
 	m.lastKind = map[common_info.PodID]string{}
 	m.dupHandler = false
+	m.dupKinds = map[string]bool{}
 }
 
 func sameSet(a, b []string) bool {
@@ -310,8 +313,18 @@ func (m *Monitor) checkAll(where string) {
 	}
 	// queue usage is updated by the proportion handler which runs before this one for the same event
 	for _, s := range CheckQueues(m.ssn, sched.CurrentProportion, m.Stats) {
+		if strings.HasPrefix(s, "task ") {
+			// what a pod is charged (accepted resource) does not match its request on the node it is on
+			m.report("C14", "task-accepted-resource", s)
+			continue
+		}
 		if m.dupHandler {
-			m.report("C14", "queue-accounting-after-duplicate-handler-call", s)
+			ks := make([]string, 0, len(m.dupKinds))
+			for k := range m.dupKinds {
+				ks = append(ks, k)
+			}
+			sort.Strings(ks)
+			m.report("C14", "queue-accounting-after-duplicate-handler-call:"+strings.Join(ks, "+"), s)
 		} else if len(m.movedOnNode) > 0 {
 			m.report("C14", "queue-accounting-after-shared-gpu-renomination", s)
 		} else {
